@@ -48,6 +48,9 @@ SCENARIOS = [
     # between its two copies leaves a re-run that must copy 3 MiB from the output itself
     ("large-chunk-twice", ["--fixed-size", "3MiB", "--compression", "none"],
      (b"B" * 9 + bytes((i * 5) % 251 for i in range(3 * (1 << 20) - 9))) * 2 + b"C" * 11 + bytes((i * 11) % 249 for i in range(3 * (1 << 20) - 11)), None, None, []),
+    # in place AND a seed file: the seed's chunk lands where a chunk sits that the output still needs elsewhere
+    ("in-place-with-seed", ["--fixed-size", "4B", "--compression", "none"], b"ZZZZYYYYPPPPQQQQ", b"YYYYPPPPQQQQ", b"ZZZZ", ["--seed-output"]),
+    ("in-place-with-seed-swap", ["--fixed-size", "4B", "--compression", "none"], b"AAAABBBBCCCC", b"BBBBAAAAXXXX", b"CCCCAAAA", ["--seed-output"]),
     # truncated chunk hashes together with a larger number of chunks in flight; a chunk needed twice
     ("dup-truncated-hash", ["--fixed-size", "4B", "--compression", "none", "--hash-length", "4"], b"AAAABBBBAAAACCCCBBBB", b"BBBB", None, ["--seed-output", "--buffered-chunks", "16"]),
     ("dup-truncated-hash-fresh", ["--fixed-size", "4B", "--compression", "none", "--hash-length", "5"], b"AAAABBBBAAAACCCC", None, None, ["--buffered-chunks", "9"]),
